@@ -16,7 +16,11 @@ def _safe(name):
 
 def conclude(pid, P, tier, seed, results, wall):
     from .check import load_baseline
-    baseline = set(load_baseline().get(pid, []))
+    # an obligation name denotes the same obligation whichever property's check runs its unit, so the
+    # baseline is the union over all properties
+    baseline = set()
+    for names in load_baseline().values():
+        baseline.update(names)
     os.makedirs(os.path.join(VERIF, 'evidence'), exist_ok=True)
     os.makedirs(os.path.join(VERIF, 'replays'), exist_ok=True)
     lines = []
